@@ -166,6 +166,9 @@ func oneSame(in *Input) (finds []sameFinding, digest string, stmts int) {
 	if changes != nil && desc1 != desc {
 		add("fresh-graphs-differ", "two fresh builds of the same input give different change lists: "+firstDiff([]byte(desc), []byte(desc1)), nil)
 	}
+	if f := checkpointTwice(in); f != nil {
+		finds = append(finds, *f)
+	}
 	digest = rt.Digest(in.Name, desc, sum([]byte(first)), sum([]byte(fa0)), sum([]byte(ta0)))
 	return
 }
@@ -187,4 +190,62 @@ func runSame(c *rt.Ctx, ins []*Input) {
 			c.Sample(map[string]any{"leg": "same", "input": in.Name, "rounds": sameR, "statements": stmts, "verdict": "held"})
 		}
 	})
+}
+
+// checkpointTwice: (d) the SAME formatted bytes written as a checkpoint file to two directories (a
+// directory and its mirror; a retry after a failed write): both files and both sums must be identical,
+// the first directory must not change when the second one is written, and the caller's bytes must
+// still be the formatted file. The bytes come straight from the formatter (a bytes.Buffer's slice,
+// usually with spare capacity), as Planner.WriteCheckpoint hands them over.
+func checkpointTwice(in *Input) *sameFinding {
+	_, plan, err := diffPlan(in)
+	if err != nil || plan == nil || len(plan.Changes) == 0 {
+		return nil
+	}
+	files, err := migrate.DefaultFormatter.Format(plan)
+	if err != nil || len(files) != 1 {
+		return nil
+	}
+	name, b := files[0].Name(), files[0].Bytes()
+	orig := string(b)
+	read := func(d *migrate.MemDir) (string, string) {
+		fs, _ := d.Files()
+		var body string
+		for _, f := range fs {
+			if f.Name() == name {
+				body = string(f.Bytes())
+			}
+		}
+		hf, err := d.Checksum()
+		if err != nil {
+			return body, "error: " + err.Error()
+		}
+		sb, _ := hf.MarshalText()
+		return body, string(sb)
+	}
+	d1, d2 := &migrate.MemDir{}, &migrate.MemDir{}
+	if err := d1.WriteCheckpoint(name, "v1", b); err != nil {
+		return nil
+	}
+	f1, s1 := read(d1)
+	afterFirst := string(b)
+	if err := d2.WriteCheckpoint(name, "v1", b); err != nil {
+		return nil
+	}
+	f2, s2 := read(d2)
+	f1b, s1b := read(d1)
+	mk := func(what string, det map[string]any) *sameFinding {
+		return &sameFinding{"same|checkpoint-written-twice", in.Name + ": " + what, det}
+	}
+	switch {
+	case afterFirst != orig || string(b) != orig:
+		return mk("WriteCheckpoint changed the caller's formatted bytes: "+firstDiff([]byte(orig), b), map[string]any{"formatted": clip([]byte(orig), 1500), "after_write": clip(b, 1500)})
+	case f1b != f1 || s1b != s1:
+		return mk("the checkpoint file / sum of the first directory changed when the same bytes were written to a second directory: "+firstDiff([]byte(f1), []byte(f1b)), map[string]any{"before": clip([]byte(f1), 1500), "after": clip([]byte(f1b), 1500)})
+	case f1 != f2 || s1 != s2:
+		return mk("the same formatted bytes written as a checkpoint to two directories give different files: "+firstDiff([]byte(f1), []byte(f2)), map[string]any{"first": clip([]byte(f1), 1500), "second": clip([]byte(f2), 1500)})
+	case !strings.HasSuffix(f1, orig):
+		return mk("the checkpoint file does not end with the formatted file", map[string]any{"file": clip([]byte(f1), 1500)})
+	}
+	return nil
 }
